@@ -35,8 +35,41 @@ type Evaluator struct {
 	pre   *State // loop-entry state, for pre()
 	heads func(n int) (*State, func(string, *State) (SVal, bool))
 	calls func(name string, k int) *State
+	trigs *map[string][]Term // bound variable -> candidate trigger terms (innermost quantifier)
 	side  *[]Term // collector of well-formedness facts for values read under the innermost quantifier
 	noSide int    // >0: inside a negative position; do not attach side facts
+}
+
+// trigger records a candidate instantiation pattern (head G v) for the bound variable v, where G is a ground
+// term (the slice, or the domain array of a map). G is abstracted by a declared constant equal to it, because
+// solvers reject patterns whose ground parts expand (through define-fun) to terms with ite/and/not.
+func (ev *Evaluator) trigger(v Term, head string, ground Term, sort string) {
+	if ev.trigs == nil || !strings.HasPrefix(v, "|") || !strings.HasSuffix(v, "?|") {
+		return
+	}
+	if strings.Contains(ground, "?|") {
+		return // not ground
+	}
+	fx := ev.fx
+	if fx.trigNames == nil {
+		fx.trigNames = map[string]string{}
+	}
+	name, ok := fx.trigNames[ground]
+	if !ok {
+		fx.s.n++
+		name = fmt.Sprintf("trg!%d", fx.s.n)
+		fx.trigNames[ground] = name
+		fx.s.lines = append(fx.s.lines, fmt.Sprintf("(declare-fun %s () %s)", name, sort), fmt.Sprintf("(assert (= %s %s))", name, ground))
+		fx.s.declared[name] = true
+	}
+	term := "(" + head + " " + name + " " + v + ")"
+	m := *ev.trigs
+	for _, t := range m[v] {
+		if t == term {
+			return
+		}
+	}
+	m[v] = append(m[v], term)
 }
 
 // note records that a value of type t was read from ev.st: its well-formedness may be assumed
@@ -137,7 +170,8 @@ func (ev *Evaluator) eval(e Expr) SVal {
 				s := ev.eval(ix.X)
 				i := ev.eval(ix.I)
 				if st, ok := s.typ.Underlying().(*types.Slice); ok {
-					return SVal{v: Val{t: fmt.Sprintf("(mkref (sobj %s) (+ (soff %s) %s))", s.v.t, s.v.t, i.v.t)}, typ: types.NewPointer(st.Elem())}
+					ev.trigger(i.v.t, "elemref", s.v.t, "Slice")
+					return SVal{v: Val{t: fmt.Sprintf("(elemref %s %s)", s.v.t, i.v.t)}, typ: types.NewPointer(st.Elem())}
 				}
 			}
 			unsupported("spec: & only supported on slice elements")
@@ -429,7 +463,8 @@ func (ev *Evaluator) index(x *EIndex) SVal {
 	case *types.Slice:
 		key, srt := fx.tm.heapKey(t.Elem())
 		h := fx.heap(ev.st, key, srt)
-		ev2 := fmt.Sprintf("(select %s (mkref (sobj %s) (+ (soff %s) %s)))", h, b.v.t, b.v.t, i.v.t)
+		ev2 := fmt.Sprintf("(select %s (elemref %s %s))", h, b.v.t, i.v.t)
+		ev.trigger(i.v.t, "elemref", b.v.t, "Slice")
 		ev.note(t.Elem(), ev2)
 		return SVal{v: Val{t: ev2}, typ: t.Elem()}
 	case *types.Basic:
@@ -440,7 +475,10 @@ func (ev *Evaluator) index(x *EIndex) SVal {
 		cell := "(select " + h + " " + b.v.t + ")"
 		k := fx.encode(i.v, t.Key())
 		present := fmt.Sprintf("(and (not (= %s nilref)) (select (%s %s) %s))", b.v.t, mi.Dom, cell, k)
-		return SVal{v: Val{t: ite(present, fmt.Sprintf("(select (%s %s) %s)", mi.Val, cell, k), fx.tm.zero(t.Elem()))}, typ: t.Elem()}
+		ev.trigger(k, "select", fmt.Sprintf("(%s %s)", mi.Dom, cell), "(Array "+mi.KeySort+" Bool)")
+		mv := ite(present, fmt.Sprintf("(select (%s %s) %s)", mi.Val, cell, k), fx.tm.zero(t.Elem()))
+		ev.note(t.Elem(), mv)
+		return SVal{v: Val{t: mv}, typ: t.Elem()}
 	case *types.Array:
 		return SVal{v: Val{t: "(select " + b.v.t + " " + i.v.t + ")"}, typ: t.Elem()}
 	case *types.Pointer:
@@ -540,8 +578,12 @@ func (ev *Evaluator) quant(x *EQuant) SVal {
 	var side []Term
 	savedSide := ev.side
 	ev.side = &side
+	trigs := map[string][]Term{}
+	savedTrigs := ev.trigs
+	ev.trigs = &trigs
 	body := ev.eval(x.Body).v.t
 	ev.side = savedSide
+	ev.trigs = savedTrigs
 	fx.s.inQuant--
 	for _, v := range x.Vars {
 		delete(ev.bound, v.Name)
@@ -562,6 +604,40 @@ func (ev *Evaluator) quant(x *EQuant) SVal {
 	} else {
 		q = "exists"
 		body = and(append(ranges, body)...)
+	}
+	// explicit instantiation patterns: one trigger term per bound variable (all variables must be covered)
+	if x.Forall {
+		var pats [][]Term
+		covered := true
+		maxAlt := 1
+		for _, v := range x.Vars {
+			ts := trigs["|"+v.Name+"?|"]
+			if len(ts) == 0 {
+				covered = false
+				break
+			}
+			if len(ts) > maxAlt {
+				maxAlt = len(ts)
+			}
+		}
+		if covered {
+			if maxAlt > 3 {
+				maxAlt = 3
+			}
+			for alt := 0; alt < maxAlt; alt++ {
+				var p []Term
+				for _, v := range x.Vars {
+					ts := trigs["|"+v.Name+"?|"]
+					p = append(p, ts[alt%len(ts)])
+				}
+				pats = append(pats, p)
+			}
+			var ps strings.Builder
+			for _, p := range pats {
+				ps.WriteString(" :pattern (" + strings.Join(p, " ") + ")")
+			}
+			body = "(! " + body + ps.String() + ")"
+		}
 	}
 	return SVal{v: Val{t: fmt.Sprintf("(%s (%s) %s)", q, strings.Join(decls, " "), body)}, typ: boolT}
 }
@@ -590,6 +666,7 @@ func (ev *Evaluator) call(x *ECall) SVal {
 			mt := m.typ.Underlying().(*types.Map)
 			mi := fx.tm.mapInfo(mt)
 			h := fx.heap(ev.st, mi.HeapKey, mi.Sort)
+			ev.trigger(k.v.t, "select", fmt.Sprintf("(%s (select %s %s))", mi.Dom, h, m.v.t), "(Array "+mi.KeySort+" Bool)")
 			return SVal{v: Val{t: fmt.Sprintf("(and (not (= %s nilref)) (select (%s (select %s %s)) %s))", m.v.t, mi.Dom, h, m.v.t, k.v.t)}, typ: boolT}
 		case "fresh":
 			p := ev.eval(x.Args[0])
@@ -642,7 +719,7 @@ func (ev *Evaluator) call(x *ECall) SVal {
 			return SVal{v: Val{t: "(str.prefixof " + p.v.t + " " + s.v.t + ")"}, typ: boolT}
 		case "isDigits":
 			s := ev.eval(x.Args[0])
-			fx.s.global("isDigits", `(define-fun isDigits ((s String)) Bool (str.in_re s (re.* (re.range "0" "9"))))`)
+			fx.s.global("isDigits", `(define-fun isDigits ((s String)) Bool (or (= s "") (>= (str.to_int s) 0)))`)
 			return SVal{v: Val{t: "(isDigits " + s.v.t + ")"}, typ: boolT}
 		case "athead":
 			// athead(n, e): e evaluated in the state at the head of loop n (start of the current iteration)
@@ -808,7 +885,7 @@ func (ev *Evaluator) specFunc(sf *SpecFunc, argExprs []Expr) SVal {
 	if sf.Body != nil {
 		// defined function: substitute (macro expansion) in the callee's package scope
 		sub := &Evaluator{fx: fx, env: map[string]SVal{}, st: ev.st, old: ev.old, pkg: fx.eng.pkgByPath[sf.Pkg], bound: map[string]SVal{},
-			pre: ev.pre, heads: ev.heads, calls: ev.calls, side: ev.side, noSide: ev.noSide}
+			pre: ev.pre, heads: ev.heads, calls: ev.calls, side: ev.side, noSide: ev.noSide, trigs: ev.trigs}
 		for k, v := range ev.bound {
 			sub.bound[k] = v
 		}
